@@ -310,6 +310,11 @@ func (f *fetcher) dedupFetch(req *http.Request, key cache.CacheKey, clientHd *he
 		fetched, err = f.fetchUpstream(req, key, clientHd)
 		if err != nil && errors.Is(err, ErrNotCacheable) {
 			slog.Debug("Cache could not be used for this request, falling back to direct fetch", "url", req.URL, "error", err)
+			if !clientHd.Range.IsPresent() {
+				// The origin refused the range (416) and the retry without it was answered: the
+				// fallback must not ask for the refused range again, or the client gets that 416
+				req.Header.Del("Range")
+			}
 			return f.fetchDirectlyFromUpstream(req)
 		}
 		return fetched, err
